@@ -53,6 +53,7 @@ type Obligation struct {
 	Func    string
 	Clause  string // contract clause label/source when it stems from one
 	Short   bool   // listed as an open known finding: it is expected to fail, so it gets a short budget
+	Using   []string // when non-nil: the labelled hypotheses this obligation's query keeps
 	Tainted bool   // generated after a loop clause failed to bind: a failure is undecided, not a violation
 	// filled by discharge
 	Result SolverResult
@@ -62,6 +63,9 @@ type Obligation struct {
 // FnCtx is the verification context of one function under contract: all
 // obligations, assumptions and declarations generated from it.
 type FnCtx struct {
+	curLabel    string
+	assumeLabel map[int]string
+	embDeclared bool
 	bindLoopHeaps map[string]bool // (sanitized) heaps modified by loops whose contract no longer binds
 	bindErrors []string // contract clauses that no longer bind to the code (reported as UNDECIDED; other obligations are still generated)
 	rootLets map[string]CV // `def` names of the contract under verification
@@ -145,7 +149,24 @@ func (fx *FnCtx) assume(guard, fact T) {
 	if f == "true" {
 		return
 	}
+	if fx.curLabel != "" {
+		if fx.assumeLabel == nil {
+			fx.assumeLabel = map[int]string{}
+		}
+		fx.assumeLabel[len(fx.assumes)] = fx.curLabel
+	}
 	fx.assumes = append(fx.assumes, f)
+}
+
+// labelled runs f with every assumption it adds tagged with label (for the
+// `using` clause of ensures).
+func (fx *FnCtx) labelled(label string, f func()) {
+	old := fx.curLabel
+	if label != "" {
+		fx.curLabel = label
+	}
+	defer func() { fx.curLabel = old }()
+	f()
 }
 
 // assumeOnce adds an unguarded fact unless the same text is already there.
@@ -272,7 +293,19 @@ func (fx *FnCtx) oblige(kind, name string, st *State, cond T, pos token.Pos, cla
 	// later obligations may assume this one (not the limits of an assumed
 	// contract's model: those are not facts about the program)
 	if kind != "model" {
-		fx.assume(st.guard, cond)
+		lbl := ""
+		switch kind {
+		case "ensures", "invariant", "frame", "requires":
+			// (safety obligations stay unlabelled: always available)
+			lbl = strings.TrimSuffix(name, "#")
+			if i := strings.LastIndex(lbl, "/"); i >= 0 {
+				lbl = lbl[i+1:]
+			}
+			if kind == "frame" {
+				lbl = "frame"
+			}
+		}
+		fx.labelled(lbl, func() { fx.assume(st.guard, cond) })
 	}
 	return o
 }
@@ -297,7 +330,12 @@ func (fx *FnCtx) query(o *Obligation) string {
 	var b strings.Builder
 	b.WriteString(fx.eng.prelude)
 	b.WriteString(fx.decls.Text())
-	for _, a := range fx.assumes[:o.NAssume] {
+	for i, a := range fx.assumes[:o.NAssume] {
+		if o.Using != nil {
+			if l, ok := fx.assumeLabel[i]; ok && !contains(o.Using, l) {
+				continue
+			}
+		}
 		b.WriteString("(assert ")
 		b.WriteString(a)
 		b.WriteString(")\n")
